@@ -267,7 +267,13 @@ def main(argv=None):
     if rc == 2:
         # an undecided run claims nothing
         ev["coverage"]["note"] = "UNDECIDED run: nothing is claimed"
-    json.dump(ev, open(os.path.join(VERIF, 'evidence', pid + '.json'), 'w'), indent=1)
+    # evidence under /verif/evidence describes runs against /repo only; runs against a scratch copy (VERIF_REPO, used for
+    # seeded changes) leave theirs under .work
+    evdir = os.path.join(VERIF, 'evidence')
+    if os.environ.get('VERIF_REPO'):
+        evdir = os.path.join(VERIF, '.work', 'scratch_evidence', os.environ.get('VERIF_WORKTAG', 'scratch'))
+        os.makedirs(evdir, exist_ok=True)
+    json.dump(ev, open(os.path.join(evdir, pid + '.json'), 'w'), indent=1)
     for l in lines:
         print(l)
     print("%s: %s  (%d functions, %d/%d obligations discharged, %d labelled %s, %.0fs)" %
